@@ -332,6 +332,42 @@ class Account:
         @icontract.require(lambda self: self.__n > 0, 'inner positive')
         def m(self):
             return self.__n
+
+
+class Ledger:
+    def __init__(self):
+        self.__limit = 1000
+        self.__xs = [1, -1]
+        self.__b = 0
+        self.__a__b = 7
+
+
+class Savings(Ledger):
+    # the sub-class has private attributes of the same names; a condition may also spell out the base's mangled name
+    def __init__(self):
+        super().__init__()
+        self.__limit = 5
+        self.__xs = [2, -2]
+        self.__b = 0
+        self.__a__b = 7
+
+    @icontract.require(lambda self, x: x <= self.__limit and x <= self._Ledger__limit, 'within both limits')
+    def take(self, x):
+        return x
+
+    @icontract.require(lambda self: self.__b and self.__a__b[0], 'suffix names')
+    def suffix(self):
+        return 1
+
+    @icontract.require(lambda self: all(v > 0 for v in self.__xs) and len([w for w in [self.__limit] if w > 100]) > 0,
+                       'private attributes inside comprehensions')
+    def scan(self):
+        return 1
+
+
+class Vault(Savings):
+    # a violated contract of the BASE class on an instance of a sub-class
+    pass
 """
 
 
@@ -354,7 +390,8 @@ def scope_cases(ctx, only=None):
     for role in ("require", "ensure"):
         for is_async in (False, True):
             cells.append(("late-bound closure variable/%s%s" % (role, "/async" if is_async else ""), ("late", role, is_async)))
-    for name in ("pay/closed", "pay/over-limit", "quote", "apay/closed", "inner"):
+    for name in ("pay/closed", "pay/over-limit", "quote", "apay/closed", "inner", "two-classes", "suffix", "comprehension",
+                 "sub-class-instance"):
         cells.append(("private attribute/%s" % name, ("private", name)))
     for label, spec in cells:
         if only and only != label:
@@ -375,10 +412,21 @@ def scope_cases(ctx, only=None):
                     "pay/over-limit": (lambda: A(True, 10).pay(50), "self.__open and x < self.__limit"),
                     "quote": (lambda: A(True, 10).quote(50), "result < self.__limit and self.__open"),
                     "apay/closed": (lambda: RUN_drive(A(False, 10).apay(1)), "self.__open and x < self.__limit"),
-                    "inner": (lambda: A.Inner(-1).m(), "self.__n > 0")}[spec[1]]
+                    "inner": (lambda: A.Inner(-1).m(), "self.__n > 0"),
+                    "two-classes": (lambda: mod_pre.mod.Savings().take(7), "x <= self.__limit and x <= self._Ledger__limit"),
+                    "suffix": (lambda: mod_pre.mod.Savings().suffix(), "self.__b and self.__a__b[0]"),
+                    "comprehension": (lambda: mod_pre.mod.Savings().scan(), "all(v > 0 for v in self.__xs)"),
+                    "sub-class-instance": (lambda: mod_pre.mod.Vault().take(7), "x <= self.__limit and x <= self._Ledger__limit"),
+                }[spec[1]]
                 got = outcome(fn)
                 if spec[1] == "pay/over-limit":
                     want_lines = ["self.__limit was 10", "self.__open was True", "x was 50"]
+                if spec[1] in ("two-classes", "sub-class-instance"):
+                    want_lines = ["self.__limit was 5", "x was 7"]
+                if spec[1] == "suffix":
+                    want_lines = ["self.__b was 0"]
+                if spec[1] == "comprehension":
+                    want_lines = ["v = -2"]
         ctx.case(["scope", label], True, sample={"directed": label, "outcome": list(got)[:2]})
         ctx.count("directed:scope-cases")
         if got[0] != "violation":
